@@ -192,7 +192,9 @@ class ResolvePortRefs(ElabPass):
         i0.p = i1.p
         i1.p = i0.p # Connected back!
         ```
-        In these cases, the first Instance name in alphabetical order is used.
+        In these cases, the first Instance name in alphabetical order is used,
+        and among several Ports of that Instance, the first Port name in alphabetical order.
+        (The order of `group` follows hash-ordered sets of connected ports, and must not decide.)
         """
 
         # Sort out which PortRefs have no connection
@@ -205,8 +207,8 @@ class ResolvePortRefs(ElabPass):
         if len(connected_to_none) > 1:
             self.fail(f"Invalid PortRef group: {group}")
 
-        # Nothing "unconnected". Find the instance one with the lowest (alphabetical) name.
-        ordered = sorted(group, key=lambda p: p.inst.name)
+        # Nothing "unconnected". Find the one with the lowest (alphabetical) instance and port name.
+        ordered = sorted(group, key=lambda p: (p.inst.name, p.portname))
         return ordered[0]
 
     def create_source(self, module: Module, group: List[PortRef]) -> PortType:
